@@ -83,6 +83,11 @@ def build_array(d):
         a = np.asarray(x, dtype='int64').view(dtype)
     else:
         a = np.asarray(x, dtype=object).astype(dtype) if dtype.kind in 'iu' and fill == 'limits' else np.asarray(x).astype(dtype)
+    if d.get('negzero') and dtype.kind == 'f' and a.size:
+        # zeros of either sign (equal as values, different as bit patterns): a result must not depend on the sign of a zero
+        z = np.flatnonzero(a == 0)
+        if z.size:
+            a[z[rs.rand(z.size) < 0.5]] = -0.0
     a = a.reshape(shape)
     return relayout(a, d.get('layout'))
 
